@@ -4,11 +4,13 @@ package dptdec
 
 import (
 	"fmt"
+	"reflect"
 	"sort"
 	"strings"
 	"sync"
 	"sync/atomic"
 
+	"github.com/vapourismo/knx-go/knx/dpt"
 	"verifh/enum/enumlib"
 )
 
@@ -399,7 +401,54 @@ type job struct {
 // runItems enumerates every item completely (in chunks handed to the cores), judges each case
 // and returns the tallies. Items not (completely) evaluated because the budget expired are
 // marked cut.
+// sharedInstance reports whether two datapoints obtained from dpt.Produce(name) are one and the same
+// object (or nothing at all). The enumeration keeps two instances per shard and compares them; on one
+// shared object every comparison would succeed vacuously and the shards would write to it from 16
+// goroutines at once, so such a type is reported here and left out of the enumeration.
+func sharedInstance(name string) (shared bool, detail string) {
+	a, ok1 := dpt.Produce(name)
+	b, ok2 := dpt.Produce(name)
+	if !ok1 || !ok2 || a == nil || b == nil {
+		return false, ""
+	}
+	va, vb := reflect.ValueOf(a), reflect.ValueOf(b)
+	if va.Kind() == reflect.Ptr && vb.Kind() == reflect.Ptr && va.Pointer() == vb.Pointer() {
+		return true, fmt.Sprintf("dpt.Produce(%q) returned the same %T (%p) twice: every datapoint of the type is one object, a value decoded into one of them is overwritten by the next telegram decoded into any other", name, a, a)
+	}
+	return false, ""
+}
+
 func runItems(r *enumlib.Run, items []item) *tally {
+	{
+		seen := map[string]bool{}
+		kept := items[:0:0]
+		for _, it := range items {
+			if !seen[it.typ] {
+				seen[it.typ] = true
+				if shared, detail := sharedInstance(it.typ); shared {
+					prop := "C08"
+					if it.fl&fC06 != 0 {
+						prop = "C06"
+					}
+					r.Violation(prop+":datapoints-of-a-type-share-one-value", detail, caseInput{Type: it.typ})
+					seen[it.typ+"/shared"] = true
+				}
+			}
+			if !seen[it.typ+"/shared"] {
+				kept = append(kept, it)
+			}
+		}
+		items = kept
+		nt := 0
+		for k := range seen {
+			if !strings.HasSuffix(k, "/shared") {
+				nt++
+			}
+		}
+		r.Space("instances", int64(nt), int64(nt), true, "every type of the run: two datapoints obtained from dpt.Produce are two objects (a type whose datapoints are one shared object is reported and left out of the enumeration)")
+		r.Eval(int64(nt))
+		r.Nontrivial(int64(nt))
+	}
 	var jobs []job
 	for k := range items {
 		it := &items[k]
